@@ -104,18 +104,23 @@ def slice_offset(slice, shape):
         offset = (0, 0)
     elif Ellipsis in slice:
         # The only case we know enough to deal with is (Ellipsis, slice(None, None, None))
-        if slice(None, None, None) in slice:
+        # (written np.s_[:]: the argument shadows the builtin of the same name)
+        if np.s_[:] in slice:
             offset = (0, 0)
         else:
             raise ValueError(f"Can't compute offset from slice {slice}")
     else:
-        slice_shape = np.array((slice[0].stop-slice[0].start, slice[1].stop-slice[1].start))
-        slice_center = slice_shape//2
-
         shape = np.asarray(shape)
         center = shape//2
 
-        slice_offset = np.array((slice[0].start+slice_center[0], slice[1].start+slice_center[1])) - center
+        # open ends (a[2:, :5]) are the ends of the containing array
+        start = [slice[k].indices(int(shape[k]))[0] for k in (0, 1)]
+        stop = [slice[k].indices(int(shape[k]))[1] for k in (0, 1)]
+
+        slice_shape = np.array((stop[0]-start[0], stop[1]-start[1]))
+        slice_center = slice_shape//2
+
+        slice_offset = np.array((start[0]+slice_center[0], start[1]+slice_center[1])) - center
 
         if np.all(slice_offset == 0):
             offset = (0, 0)
